@@ -85,26 +85,42 @@ Section Und.
     end.
 End Und.
 
-(* the subcommand in force: the value of the dest key, else the first declared one that has a (non-empty) section *)
-Definition spec_selected (sb : subs) (l : list (str * cv)) : option str :=
+(* which mappings count as the section of a subcommand depends on how the configuration was handed over (mode, see the
+   model file): parse_string(defaults=False) keeps an empty mapping, everything else only sections holding some value *)
+Definition spec_section (md : mode) (l : list (str * cv)) (s : str) : bool :=
+  match assoc s l with
+  | Some (CDict x) => match md with MNoDefStr => true | _ => negb (leafless (CDict x)) end
+  | _ => false
+  end.
+
+(* the subcommand in force: the value of the dest key, else the first declared one that has a section *)
+Definition spec_selected (md : mode) (sb : subs) (l : list (str * cv)) : option str :=
   match assoc (s_dest sb) l with
   | Some (CStr s) => Some s
-  | _ => match filter (fun s => match assoc s l with Some (CDict x) => negb (leafless (CDict x)) | _ => false end) (map fst (s_map sb)) with
+  | _ => match filter (spec_section md l) (map fst (s_map sb)) with
          | s :: _ => Some s
          | [] => None
          end
   end.
 
-(* sections that the parse discards: those of the subcommands not in force *)
-Definition discarded (sb : subs) (l : list (str * cv)) : list str :=
-  let secs := filter (fun s => match assoc s l with Some (CDict _) => true | _ => false end) (map fst (s_map sb)) in
-  match spec_selected sb l with
-  | Some s => filter (fun x => negb (str_eqb x s)) secs
+(* sections that the parse discards: those of the subcommands not in force (with defaults merged: all of them; without:
+   only when more than one section is given) *)
+Definition discarded (md : mode) (sb : subs) (l : list (str * cv)) : list str :=
+  match spec_selected md sb l with
+  | Some s =>
+      match md with
+      | MDefaults =>
+          filter (fun x => negb (str_eqb x s))
+            (filter (fun s => match assoc s l with Some (CDict _) => true | _ => false end) (map fst (s_map sb)))
+      | _ =>
+          let secs := filter (spec_section md l) (map fst (s_map sb)) in
+          if Nat.ltb 1 (length secs) then filter (fun x => negb (str_eqb x s)) secs else []
+      end
   | None => []
   end.
 
 (* sd = true: leave out the discarded sections (finding class 2) *)
-Definition und_top (sl sd sc : bool) (p : parser) (cfg : cv) : list (list seg) :=
+Definition und_top (md : mode) (sl sd sc : bool) (p : parser) (cfg : cv) : list (list seg) :=
   match cfg with
   | CDict l =>
       match p_sub p with
@@ -114,25 +130,25 @@ Definition und_top (sl sd sc : bool) (p : parser) (cfg : cv) : list (list seg) :
             let k := fst kw in let w := snd kw in
             if str_eqb k (s_dest sb) then []
             else match assoc k (s_map sb) with
-                 | Some sa => if sd && mem_str k (discarded sb l) then [] else map (cons (K k)) (und sl sc sa w)
+                 | Some sa => if sd && mem_str k (discarded md sb l) then [] else map (cons (K k)) (und sl sc sa w)
                  | None => und sl sc (p_args p) (CDict [kw])
                  end) l
       end
   | _ => []
   end.
 
-Definition undeclared (p : parser) (cfg : cv) : list (list seg) := und_top false false false p cfg.
+Definition undeclared (md : mode) (p : parser) (cfg : cv) : list (list seg) := und_top md false false false p cfg.
 
 (* 0 = inside the guard;
    1 = an undeclared key whose value is a leafless mapping;
    2 = an undeclared key in the section of a subcommand that is not in force;
    3 = an undeclared key beside class_path in a class value without init_args *)
-Definition guard_class (p : parser) (cfg : cv) : N :=
-  let n := length (und_top false false false p cfg) in
-  if Nat.ltb (length (und_top false false true p cfg)) n then 3%N
-  else if Nat.ltb (length (und_top true false false p cfg)) n then 1%N
-  else if Nat.ltb (length (und_top false true false p cfg)) n then 2%N
-  else if Nat.eqb (length (und_top true true true p cfg)) n then 0%N else 4%N.
+Definition guard_class (md : mode) (p : parser) (cfg : cv) : N :=
+  let n := length (und_top md false false false p cfg) in
+  if Nat.ltb (length (und_top md false false true p cfg)) n then 3%N
+  else if Nat.ltb (length (und_top md true false false p cfg)) n then 1%N
+  else if Nat.ltb (length (und_top md false true false p cfg)) n then 2%N
+  else if Nat.eqb (length (und_top md true true true p cfg)) n then 0%N else 4%N.
 
 (* ---- required keys ------------------------------------------------------------------------------------ *)
 Fixpoint req_d (key : list str) (d : decl) : list (list str) :=
@@ -209,7 +225,7 @@ Fixpoint nest_missing (fs : args) (v : cv) {struct v} : list (list seg) :=
   | _ => []
   end.
 
-Definition missing_required (p : parser) (cfg : cv) : list (list seg) :=
+Definition missing_required (md : mode) (p : parser) (cfg : cv) : list (list seg) :=
   match cfg with
   | CDict l =>
       match p_sub p with
@@ -217,7 +233,7 @@ Definition missing_required (p : parser) (cfg : cv) : list (list seg) :=
       | Some sb =>
           flat_missing (p_args p) cfg
           ++ nest_missing (p_args p) (CDict (filter (fun kw => match assoc (fst kw) (s_map sb) with Some _ => false | None => true end) l))
-          ++ match spec_selected sb l with
+          ++ match spec_selected md sb l with
              | Some s =>
                  match assoc s (s_map sb) with
                  | Some sa =>
@@ -250,9 +266,9 @@ Fixpoint is_suffix (a b : list seg) : bool :=
 Definition names (key : list str) (paths : list (list seg)) : bool :=
   match key with [] => false | _ => existsb (fun p => is_suffix (map K key) p) paths end.
 
-Definition spec_ok (p : parser) (cfg : cv) (o : obs) : bool :=
-  let u := undeclared p cfg in
-  let m := missing_required p cfg in
+Definition spec_ok (md : mode) (p : parser) (cfg : cv) (o : obs) : bool :=
+  let u := undeclared md p cfg in
+  let m := missing_required md p cfg in
   match o with
   | Accepted => match u, m with [], [] => true | _, _ => false end
   | RejUnknown k => names k u
